@@ -332,6 +332,31 @@ def generate(seed, tier):
                     v[r * n + j] = lo - 1
             ops.append("lap %d %d %s" % (n, n, " ".join(hx(x) for x in v)))
         cases.append([case_line(rng, "lapdeg%d" % i)] + ops)
+    # nearly tied costs: small integers plus a few multiples of a tiny quantum.  The augmenting row
+    # reduction then lowers a column price by the quantum per re-assignment (a "price war"): before
+    # the repair recorded in findings/C04.json the routine needed ~ range/quantum steps (did not
+    # return for quantum = 2^-52); now the chain is cut after dim scans per free row.
+    for i in range(40 if tier == "thorough" else 10):
+        ops = []
+        for _ in range(12):
+            n = rng.choice([3, 4, 4, 5, 6, 7])
+            q = rng.choice([2.0 ** -52, 2.0 ** -51, 2.0 ** -40, 2.0 ** -20, 2.0 ** -8, 0.25])
+            hi = rng.choice([1, 2, 3])
+            v = [float(rng.randint(0, hi)) + (q * rng.randint(0, 5) if rng.random() < 0.3 else 0.0) for _ in range(n * n)]
+            ops.append("lap %d %d %s" % (n, n, " ".join(hx(x) for x in v)))
+        cases.append([case_line(rng, "lapwar%d" % i)] + ops)
+    # larger problems (no brute force beyond 7x7: the certificate alone is evaluated)
+    for i in range(12 if tier == "thorough" else 3):
+        ops = []
+        for _ in range(6):
+            n = rng.choice([8, 9, 10, 12, 14])
+            if rng.random() < 0.6:
+                lo, hi = rng.choice([(0, 1), (0, 3), (-2, 4), (0, 20)])
+                v = [float(rng.randint(lo, hi)) for _ in range(n * n)]
+            else:
+                v = [rng.uniform(-5, 5) for _ in range(n * n)]
+            ops.append("lap %d %d %s" % (n, n, " ".join(hx(x) for x in v)))
+        cases.append([case_line(rng, "lapbig%d" % i)] + ops)
     # ---- random -------------------------------------------------------------------------------
     for cidx in range(N):
         f = rng.random()
@@ -368,9 +393,12 @@ def compare(op_line, impl, model):
     m = model.strip()
     if m == "ub":
         return impl.startswith("crash") or impl.startswith("hang")
-    if m == "relational":
-        # lap: the model is the specification (certificate), judged by the verdict
-        return impl.startswith("cost ")
+    if m == "hang":
+        # lap: a loop of the transcription ran out of fuel
+        return impl.startswith("hang")
+    if m == "inf":
+        # lap on non-finite costs: the sentinel +inf entered the arithmetic (outside the model)
+        return True
     return " ".join(impl.split()) == " ".join(m.split())
 
 
